@@ -41,9 +41,9 @@ Theorem noop_slice_returns_self t op : api_relation t → apply_full (RUn (Slice
 Proof. intros Ha. apply apply_noop; auto. Qed.
 
 Theorem transfer_to_own_engine_returns_self t :
-  api_relation t → xfer_simplify (engine_of t) t = None → transfer_e (engine_of t) t = Ok t.
+  api_relation t → transfer_e (engine_of t) t = Ok t.
 Proof.
-  intros Ha Hx. unfold transfer_e, sql_transfer, transfer_generic. rewrite Hx. cbn [default].
+  intros Ha. unfold transfer_e, sql_transfer, transfer_generic.
   rewrite engine_eqb_refl. destruct Ha as [H|H].
   - rewrite H. reflexivity.
   - destruct (ekind_of (engine_of t)); [reflexivity|]. cbn [rbind]. destruct t; try discriminate. reflexivity.
